@@ -37,6 +37,13 @@ def generate(rng, tier):
         want = mp.power(mp.mpf(d * s) / mp.mpf(d), pw)
         preds.append(('ratio_is', [f1, f2, ['#', mp.nstr(want, 40)], ['#', 50]]))
         preds += [('steps', [f1, fneg, ['#', 2]]), ('mag_bits_equal', [f1, fneg]), ('inverse_field_ref', [ch, d1, pwr, a, kc, f1]), ('inverse_field_ref', [chn, d1, pwr, a, kc, fneg])]
+        if r.chance(0.25):
+            # a ZERO charge that still carries a sign in its angle (magnitude 0 is inside the domain): zero field, same direction rule
+            z0 = P.add('GNewBlade', P.f(0.0), P.u(r.choice([0, 4, 1000])), P.f(0.0), P.f(1.0)); z2 = P.add('GNewBlade', P.f(0.0), P.u(r.choice([2, 6, 1002])), P.f(0.0), P.f(1.0))
+            zq = P.add('GNewAngle', P.f(0.0), canon_angle(P, r, False))
+            fz0 = P.add('TInvField', z0, d1, pwr, a, kc); fz2 = P.add('TInvField', z2, d1, pwr, a, kc); fzq = P.add('TInvField', zq, d1, pwr, a, kc)
+            preds += [('inverse_field_ref', [z0, d1, pwr, a, kc, fz0]), ('inverse_field_ref', [z2, d1, pwr, a, kc, fz2]), ('inverse_field_ref', [zq, d1, pwr, a, kc, fzq]),
+                      ('steps', [fz0, fz2, ['#', 2]])]
         cur = P.add('GScalar', P.f(r.logu(1e-3, 1e3))); perm = P.add('GScalar', P.f(1.2566370614359173e-06))
         b1 = P.add('TWireB', d1, cur, perm); b2 = P.add('TWireB', d2, cur, perm)
         preds.append(('ratio_is', [b1, b2, ['#', mp.nstr(mp.mpf(d * s) / mp.mpf(d), 40)], ['#', 50]]))
